@@ -1,4 +1,4 @@
-"""CLI:  ./check <Cnn> [--tier quick|thorough]   |   ./check replay <file>   |   ./check selftest ..."""
+"""CLI:  ./check <Cnn> [--tier quick|thorough]   |   ./check replay <file>   |   ./check selftest ...   |   ./check selftest-harmless ..."""
 from __future__ import annotations
 
 import argparse
@@ -35,6 +35,9 @@ def main(argv=None) -> int:
     if argv[0] == "selftest":
         from vf import selftest
         return selftest.main(argv[1:])
+    if argv[0] == "selftest-harmless":
+        from vf import selftest
+        return selftest.harmless(argv[1:])
     ap = argparse.ArgumentParser()
     ap.add_argument("prop")
     ap.add_argument("--tier", default=os.environ.get("VERIF_TIER", "quick"), choices=["quick", "thorough"])
